@@ -131,7 +131,7 @@ def gen_cases(rng, tier):
 
     fields_of = lambda kind: FIELDS_ODE if kind == "sys_ode" else FIELDS_PDE
     # (1) all (E, U) combinations x kinds, well-formed weights of every form
-    reps = 2 if quick else 6
+    reps = 2 if quick else 14
     for kind in kinds:
         for E in (1, 2, 3):
             for U in (1, 2, 3):
@@ -147,7 +147,7 @@ def gen_cases(rng, tier):
                     add(**c)
     # (2) one-equation one-unknown systems against the plain loss, scalar / dict / missing weights
     for kind in kinds:
-        for style in (["scalar", "dict"] if quick else ["scalar", "dict", "mixed", "scalar", "mixed"]):
+        for style in (["scalar", "dict"] if quick else ["scalar", "dict", "mixed"] * 4):
             c = base_case(kind, 1, 1)
             es, us = _names(c)
             w = {}
@@ -159,7 +159,7 @@ def gen_cases(rng, tier):
     # (3) malformed weight specifications must be rejected
     bad_modes = ["dict_missing", "dict_extra", "dict_other_keys", "vector", "dict_vector"]
     for kind in kinds:
-        n = 4 if quick else 12
+        n = 4 if quick else 20
         for _ in range(n):
             E, U = rng.choice([1, 2, 3]), rng.choice([1, 2, 3])
             c = base_case(kind, E, U)
